@@ -137,6 +137,7 @@ func modelEnv(model string) []string {
 func runReplay(verif, pkg, test string, env ...string) (bool, string) {
 	cmd := exec.Command(filepath.Join(verif, "scripts", "replay.sh"), pkg, test)
 	cmd.Env = append(os.Environ(), env...)
+	cmd.Env = append(cmd.Env, "VERIF_ROOT="+verif, "VERIF_REPO="+replayRepo)
 	out, err := cmd.CombinedOutput()
 	txt := string(out)
 	if strings.Contains(txt, "no tests to run") {
@@ -177,7 +178,14 @@ func runCheck(args []string) {
 	os.Exit(code)
 }
 
+// replayCache: outcome of a known finding's replay, run once per check
+var replayCache = map[string]bool{}
+
+// replayRepo: the repository tree replays run against (the tree under check)
+var replayRepo = "/repo"
+
 func checkProperty(prop, tier, repo, verif string, seed int, t0 time.Time) int {
+	replayRepo = repo
 	evPath := filepath.Join(verif, "evidence", prop+".json")
 	os.MkdirAll(filepath.Dir(evPath), 0o755)
 	os.MkdirAll(filepath.Join(verif, "replays"), 0o755)
@@ -238,9 +246,14 @@ func checkProperty(prop, tier, repo, verif string, seed int, t0 time.Time) int {
 	}
 	dir := scratchDir()
 	defer os.RemoveAll(dir)
+	findings := loadFindings(filepath.Join(verif, "known_findings.txt"))
+	for _, fd := range findings {
+		if fd.Kind == "finding" && fd.Property == prop {
+			knownFindingObls[fd.Obligation] = true
+		}
+	}
 	solveAll(vcs, dir, timeout, seed, false)
 
-	findings := loadFindings(filepath.Join(verif, "known_findings.txt"))
 	rmap := loadReplayMap(filepath.Join(verif, "replay", "map.txt"))
 	nObl, nOK := 0, 0
 	byBackend := map[string]int{}
@@ -306,7 +319,11 @@ func checkProperty(prop, tier, repo, verif string, seed int, t0 time.Time) int {
 					msg := fd.Witness
 					if fd.Replay != "" {
 						parts := strings.SplitN(fd.Replay, ":", 2)
-						failed, _ := runReplay(verif, parts[0], parts[1])
+						failed, seen := replayCache[fd.Replay]
+						if !seen {
+							failed, _ = runReplay(verif, parts[0], parts[1])
+							replayCache[fd.Replay] = failed
+						}
 						if failed {
 							msg += " (replay " + fd.Replay + " reproduces it)"
 						} else {
